@@ -24,6 +24,8 @@ func init() {
 }
 
 func runC08(w *World, r *Report) {
+	hrCleanAll(w, r, "R2")
+	hrAllLocksReleased(w, r, NewLockAn(w), "R4", "lunar/toolkit-core/status-message", "lunar/engine/config", "lunar/engine/routing", "lunar/engine/streams/config")
 	hrCleanUpFile(w, r, "R2")
 	hrFlowNamesUnique(w, r, "R5")
 	hrValidationDirGuard(w, r, "R3")
@@ -444,6 +446,21 @@ func c08Ownership(w *World, r *Report) {
 		for _, alt := range ReturnAlts(f, 0) {
 			if isNilConst(alt.Val) && condsHave(alt.Conds, false, func(v ssa.Value) bool { return strings.Contains(Path(v), rw.guard+"(") }) {
 				early = true
+			}
+		}
+		if strings.HasPrefix(rw.fn, "save") && len(guards) == 0 && !early {
+			// a part that is a collection is saved entry by entry: with nothing specified the loop over
+			// the parsed entries saves nothing, so no guard is needed (a single-file part still needs its own)
+			inLoop := false
+			for _, c := range CallsIn(f, false, "FileSystemOperation)."+rw.dst) {
+				for _, h := range loopHeadersOf(f) {
+					if loopHas(h, c.Block()) {
+						inLoop = true
+					}
+				}
+			}
+			if inLoop && fields[rw.src] && len(fields) == 1 && len(saves) == 1 && saves[rw.dst] {
+				ok, early = true, true
 			}
 		}
 		r.Check(ok && early, "R5", "payload/"+rw.fn, f.Pos(), "%s uses only guard %s (found %v), fields %v, saves %v; returns early exactly when its own part is not specified=%v", rw.fn, rw.guard, keysOf(guards), keysOf(fields), keysOf(saves), early)
